@@ -29,7 +29,8 @@ CONSTANTS
 (* Attr fields:
    origin   "app" (submitted by the local application, source dtn://node/app) or the peer that delivers it
    dst      a peer name (destination node dtn://p/x), "far" (no such neighbour), "app" (endpoint of the local agent),
-            "noagent" (an endpoint on this node nobody registered), "bcast" (the DTLSR broadcast address)
+            "noagent" (an endpoint on this node nobody registered), "bcast" (the DTLSR broadcast address),
+            "late" (dtn://late/in: on another node name, registered by a local client only when action Register happens)
    prev     peer named in the previous-node block, or "none"
    life     "long" | "short" (runs out at Advance)
    clockless  creation time zero + bundle age block
@@ -56,9 +57,10 @@ VARIABLES
   used,      \* bundles already submitted
   late,      \* Advance happened: short-lived bundles are expired
   aged,      \* the bundles that were in the store when time advanced and have been there ever since
+  lateReg,   \* a client has registered the endpoint "late" (dtn://late/in) by now; before, bundles for it are forwarded like any other
   steps, hist
 
-vars == <<up, failing, st, meta, own, peerv, nbr, table, via, idk, used, late, aged, steps, hist>>
+vars == <<up, failing, st, meta, own, peerv, nbr, table, via, idk, used, late, aged, lateReg, steps, hist>>
 
 NoRec == [known |-> FALSE, pending |-> FALSE, sent |-> {}, seq |-> 0]
 NoMeta == [has |-> FALSE, copies |-> 0, sent |-> {}]
@@ -71,13 +73,13 @@ Init ==
   /\ own = {} /\ peerv = [p \in Peers |-> [d \in Peers \cup {"far", "bcast"} |-> 0]]
   /\ nbr = {} /\ table = {} /\ via = "none"
   /\ idk = [g \in Groups |-> 0]
-  /\ used = {} /\ late = FALSE /\ aged = {} /\ steps = 0 /\ hist = <<>>
+  /\ used = {} /\ late = FALSE /\ aged = {} /\ lateReg = FALSE /\ steps = 0 /\ hist = <<>>
 
 -----------------------------------------------------------------------------
 (* world record threaded through the pipeline operators *)
 World == [st |-> st, meta |-> meta, up |-> up, failing |-> failing, own |-> own, sends |-> {}, delivered |-> {}, reports |-> {}]
 
-IsLocal(d) == d \in {"app", "noagent"}
+IsLocal(d) == d \in {"app", "noagent"} \/ (d = "late" /\ lateReg)
 (* a bundle with a creation time runs out at that time plus its lifetime, wherever it has been; one without (clock-less
    source) runs out by its age: the age it arrived with plus the time it has stayed here *)
 Expired(b) == Attr[b].life = "short" /\ late /\ (Attr[b].clockless => b \in aged)
@@ -168,7 +170,7 @@ Inspect(w, b) ==
   IF Attr[b].admin /\ x # "" /\ Attr[b].rkind = "delivered" /\ w.st[x].known THEN Forget(w, x) ELSE w
 LocalDeliver(w, b) ==
   LET w0 == Inspect(w, b) IN
-  IF Attr[b].dst = "app"
+  IF Attr[b].dst \in {"app", "late"}
   THEN Forget(ReportIf([w0 EXCEPT !.delivered = @ \cup {b}], b, "dlv", "delivered", "none"), b)
   ELSE [w0 EXCEPT !.st[b].pending = FALSE]     \* nobody to hand it to: kept (not pending), nothing reported
 
@@ -221,7 +223,7 @@ Submit(b, tg) ==
      IN /\ tg \in Choices(w1, b)
         /\ idk' = IF g = 0 THEN idk ELSE [idk EXCEPT ![g] = sq + 1]
         /\ Commit(Dispatch(w1, b, tg), [act |-> "Submit", b |-> b, tg |-> tg, choices |-> [x \in {b} |-> Choices(w1, b)]])
-  /\ UNCHANGED <<up, failing, own, peerv, nbr, table, via, late>>
+  /\ UNCHANGED <<up, failing, own, peerv, nbr, table, via, late, lateReg>>
 
 Receive(b, tg) ==
   /\ Go("Receive") /\ Attr[b].origin \in up
@@ -236,7 +238,7 @@ Receive(b, tg) ==
              ELSE LET w3 == Notify(w2, b)
                   IN /\ tg \in Choices(w3, b)
                      /\ Commit(Dispatch(w3, b, tg), [act |-> "Receive", b |-> b, tg |-> tg, choices |-> [x \in {b} |-> Choices(w3, b)]])
-  /\ UNCHANGED <<up, failing, own, peerv, nbr, table, via, idk, used, late>>
+  /\ UNCHANGED <<up, failing, own, peerv, nbr, table, via, idk, used, late, lateReg>>
 
 (* a bundle arrives from a peer at the very moment the application submits another one: the two are handled by different
    goroutines of the node (Core.handler and the AgentManager's) that share the store. Both bundles are accepted; the outcome is
@@ -255,7 +257,7 @@ Race(br, bs, tgr, tgs) ==
         /\ tgs \in Choices(s1, bs) /\ Cardinality(Choices(s1, bs)) = 1
         /\ UNCHANGED idk
         /\ Commit(Dispatch(s1, bs, tgs), [act |-> "Race", b |-> br, d |-> bs, choices |-> [x \in {br, bs} |-> IF x = br THEN Choices(r1, br) ELSE Choices(s1, bs)]])
-  /\ UNCHANGED <<up, failing, own, peerv, nbr, table, via, late>>
+  /\ UNCHANGED <<up, failing, own, peerv, nbr, table, via, late, lateReg>>
 
 PeerUp(p, pick) ==
   /\ Go("PeerUp") /\ p \notin up
@@ -265,36 +267,43 @@ PeerUp(p, pick) ==
      /\ pick \in Picks(w)
      /\ GoodPick(w, pick)
      /\ Commit(RetryAll(w, PendingSet(w), pick), [act |-> "PeerUp", p |-> p, pick |-> pick, choices |-> [x \in PendingSet(w) |-> Choices(w, x)]])
-  /\ UNCHANGED <<failing, peerv, table, via, idk, used, late>>
+  /\ UNCHANGED <<failing, peerv, table, via, idk, used, late, lateReg>>
 
 PeerDown(p) ==
   /\ Go("PeerDown") /\ p \in up
   /\ up' = up \ {p}
   /\ Commit(World, [act |-> "PeerDown", p |-> p])
-  /\ UNCHANGED <<failing, own, peerv, nbr, table, via, idk, used, late>>
+  /\ UNCHANGED <<failing, own, peerv, nbr, table, via, idk, used, late, lateReg>>
 
 SetFail(p, v) ==
   /\ Go("SetFail") /\ (p \in failing) # v
   /\ failing' = IF v THEN failing \cup {p} ELSE failing \ {p}
   /\ Commit(World, [act |-> "SetFail", p |-> p, v |-> v])
-  /\ UNCHANGED <<up, own, peerv, nbr, table, via, idk, used, late>>
+  /\ UNCHANGED <<up, own, peerv, nbr, table, via, idk, used, late, lateReg>>
 
 RetryTick(pick) ==
   /\ Go("RetryTick")
   /\ pick \in Picks(World) /\ GoodPick(World, pick)
   /\ Commit(RetryAll(World, PendingSet(World), pick), [act |-> "RetryTick", pick |-> pick, choices |-> [x \in PendingSet(World) |-> Choices(World, x)]])
-  /\ UNCHANGED <<up, failing, own, peerv, nbr, table, via, idk, used, late>>
+  /\ UNCHANGED <<up, failing, own, peerv, nbr, table, via, idk, used, late, lateReg>>
 
 CleanTick ==
   /\ Go("CleanTick")
   /\ Commit([World EXCEPT !.st = [b \in Cat |-> IF st[b].known /\ Expired(b) THEN NoRec ELSE st[b]]], [act |-> "CleanTick"])
-  /\ UNCHANGED <<up, failing, own, peerv, nbr, table, via, idk, used, late>>
+  /\ UNCHANGED <<up, failing, own, peerv, nbr, table, via, idk, used, late, lateReg>>
 
 Advance ==
   /\ Go("Advance") /\ ~late
   /\ late' = TRUE
   /\ Commit(World, [act |-> "Advance"])
-  /\ UNCHANGED <<up, failing, own, peerv, nbr, table, via, idk, used>>
+  /\ UNCHANGED <<up, failing, own, peerv, nbr, table, via, idk, used, lateReg>>
+
+(* a client registers the endpoint "late" while the node runs; what is stored for it is delivered at the next dispatch - once *)
+Register ==
+  /\ Go("Register") /\ ~lateReg
+  /\ lateReg' = TRUE
+  /\ Commit(World, [act |-> "Register"])
+  /\ UNCHANGED <<up, failing, own, peerv, nbr, table, via, idk, used, late>>
 
 Restart ==
   /\ Go("Restart")
@@ -302,28 +311,28 @@ Restart ==
   /\ peerv' = [p \in Peers |-> [d \in Peers \cup {"far", "bcast"} |-> 0]]
   /\ idk' = [g \in Groups |-> 0]
   /\ Commit([World EXCEPT !.meta = [b \in Cat |-> NoMeta]], [act |-> "Restart"])
-  /\ UNCHANGED <<failing, used, late>>
+  /\ UNCHANGED <<failing, used, late, lateReg>>
 
 (* prophet: peer p (connected) sends its summary vector: its predictability for destination d becomes level v *)
 Vector(p, d, v) ==
   /\ Go("Vector") /\ Algo = "prophet" /\ p \in up /\ peerv[p][d] # v
   /\ peerv' = [peerv EXCEPT ![p][d] = v]
   /\ Commit(World, [act |-> "Vector", p |-> p, d |-> d, v |-> v])
-  /\ UNCHANGED <<up, failing, own, nbr, table, via, idk, used, late>>
+  /\ UNCHANGED <<up, failing, own, nbr, table, via, idk, used, late, lateReg>>
 
 (* dtlsr: routing table recomputation: every node that is or was a neighbour has a route (itself as next hop) *)
 Recompute ==
   /\ Go("Recompute") /\ Algo = "dtlsr"
   /\ table' = {<<n, n>> : n \in nbr} \cup (IF via \in nbr THEN {<<"far", via>>} ELSE {})
   /\ Commit(World, [act |-> "Recompute"])
-  /\ UNCHANGED <<up, failing, own, peerv, nbr, via, idk, used, late>>
+  /\ UNCHANGED <<up, failing, own, peerv, nbr, via, idk, used, late, lateReg>>
 
 (* dtlsr: link-state data of the connected peer p arrives, saying that p is connected to node "far" *)
 Learn(p) ==
   /\ Go("Learn") /\ Algo = "dtlsr" /\ p \in up /\ via = "none"     \* one advertiser only: with two the choice among equal-cost paths is the library's
   /\ via' = p
   /\ Commit(World, [act |-> "Learn", p |-> p])
-  /\ UNCHANGED <<up, failing, own, peerv, nbr, table, idk, used, late>>
+  /\ UNCHANGED <<up, failing, own, peerv, nbr, table, idk, used, late, lateReg>>
 
 Next ==
   \/ \E b \in Cat, tg \in SUBSET Peers : Submit(b, tg) \/ Receive(b, tg)
@@ -331,7 +340,7 @@ Next ==
   \/ \E p \in Peers : PeerDown(p) \/ (\E v \in BOOLEAN : SetFail(p, v))
   \/ \E p \in Peers : \E pick \in [PendingSet(World) -> SUBSET Peers] : PeerUp(p, pick)
   \/ \E pick \in [PendingSet(World) -> SUBSET Peers] : RetryTick(pick)
-  \/ CleanTick \/ Advance \/ Restart \/ Recompute \/ (\E p \in Peers : Learn(p))
+  \/ CleanTick \/ Advance \/ Restart \/ Register \/ Recompute \/ (\E p \in Peers : Learn(p))
   \/ \E p \in Peers, d \in VecDests, v \in VecLevels : Vector(p, d, v)
 
 Spec == Init /\ [][Next]_vars
@@ -353,6 +362,6 @@ Conservation == Algo = "spray" => \A b \in Cat : (meta[b].has /\ Attr[b].origin 
 DistinctIds == \A x, y \in Cat : (x # y /\ st[x].known /\ st[y].known /\ Attr[x].origin = "app" /\ Attr[y].origin = "app"
                                     /\ Attr[x].tsg = Attr[y].tsg /\ Attr[x].tsg # 0) => st[x].seq # st[y].seq
 
-SView == <<up, failing, st, meta, own, peerv, nbr, table, via, idk, used, late, aged, steps>>
+SView == <<up, failing, st, meta, own, peerv, nbr, table, via, idk, used, late, aged, lateReg, steps>>
 Emit == (EmitMode = "final" /\ steps = MaxSteps) => PrintT(<<"TRACE", ToJson(hist)>>)
 =============================================================================
